@@ -69,18 +69,37 @@ Definition first_parms (g : source) (d : dict) : res obj :=
 Inductive ckind := CkIdentity | CkOther.
 
 (* parseCrypt *)
+Definition parse_crypt (pd : dict) : res ckind :=
+  match dlookup K_Name pd with
+  | None => Ok CkIdentity
+  | Some v =>
+    if is_name [] v || is_name K_Identity v then Ok CkIdentity
+    else if is_any_name v then Ok CkOther else Err Malformed
+  end.
+
+(* the kind of the leading Crypt filter as GetFilters determines it *)
 Definition crypt_kind (g : source) (d : dict) : res ckind :=
   match first_parms g d with
   | Err c => Err c
   | Ok ONull => Ok CkIdentity
-  | Ok (ODict pd) =>
-    match dlookup K_Name pd with
-    | None => Ok CkIdentity
-    | Some v =>
-      if is_name [] v || is_name K_Identity v then Ok CkIdentity
-      else if is_any_name v then Ok CkOther else Err Malformed
-    end
+  | Ok (ODict pd) => parse_crypt pd
   | Ok _ => Err Malformed
+  end.
+
+(* declaredCryptFilter (Writer.OpenStream, fix F64): the parameters are those of
+   /DecodeParms or of its first element; anything but a dictionary counts as none *)
+Definition declared_kind (g : source) (d : dict) : res ckind :=
+  match resolve g (dget K_DecodeParms d) with
+  | Err c => Err c
+  | Ok (OArr []) => Ok CkIdentity
+  | Ok (OArr (p0 :: _)) =>
+    match resolve g p0 with
+    | Err c => Err c
+    | Ok (ODict pd) => parse_crypt pd
+    | Ok _ => Ok CkIdentity
+    end
+  | Ok (ODict pd) => parse_crypt pd
+  | Ok _ => Ok CkIdentity
   end.
 
 (* streamCryptRecipe *)
@@ -101,11 +120,20 @@ Definition stream_recipe (g : source) (encrypted : bool) (d : dict) : res recipe
   else Ok RNone.
 
 (* Writer.OpenStream, called by Put with the copied dictionary: does it wrap the
-   data in the document cipher?  The target version is not consulted. *)
+   data in the document cipher?  A /Crypt filter declared by the dictionary
+   switches the wrap off when it is /Identity and is refused otherwise (also by
+   an unencrypted writer).  The target version is not consulted. *)
 Definition writer_encrypts (ver : N) (encrypted : bool) (g : source) (d : dict) : res bool :=
-  if encrypted then
-    match starts_with_crypt g (dget K_Filter d) with Err c => Err c | Ok b => Ok (negb b) end
-  else Ok false.
+  match starts_with_crypt g (dget K_Filter d) with
+  | Err c => Err c
+  | Ok false => Ok encrypted
+  | Ok true =>
+    match declared_kind g d with
+    | Err c => Err c
+    | Ok CkIdentity => Ok false
+    | Ok CkOther => Err Other
+    end
+  end.
 
 (* DecodeStream: is the document-level decryption applied? *)
 Definition reader_decrypts (encrypted : bool) (g : source) (d : dict) : res bool :=
